@@ -28,6 +28,7 @@ mod missed_corr;
 mod optin_corr;
 mod optin_inproc;
 mod optin_e2e;
+mod budgets_corr;
 mod corpus;
 mod gen;
 mod sweep;
@@ -107,6 +108,7 @@ fn main() {
         "missed-width" => missed_corr::width_probe(),
         "missed-c03" | "missed-c08" | "missed-c16" | "missed-c02" => missed_corr::run_part(&prop[7..], &tier, seed, &out),
         "optin" => optin_corr::run(&tier, seed, &out),
+        "budgets" => budgets_corr::run(&tier, seed, &out),
         "optin-dump" => optin_corr::dump(&args[2], args.get(3)),
         "boundary" => boundary::main(&args[2..]),
         "c03" => c03::run(&tier, seed, &out),
